@@ -51,9 +51,11 @@ class DiscStorage:
             file = self._lookup_path(external(name)._path)
         except HashError:
             return
-        if file.stem.endswith("-new"):
-            stem = file.stem[:-4]
-            file.rename(file.with_name(stem + file.suffix))
+        # "<hash>-new" + ".<suffix>": split at the first dot,
+        # pathlib puts the dot of an empty suffix ("<hash>-new.") into the stem
+        stem, dot, suffix = file.name.partition(".")
+        if stem.endswith("-new"):
+            file.rename(file.with_name(stem[:-4] + dot + suffix))
 
     def _lookup_path(self, name) -> pathlib.Path:
         files = list(self.directory.glob(name))
